@@ -10,6 +10,12 @@ open Zeno
 
 abbrev Facts := Zeno.Base.RateLimiter.Facts
 
+/-- The bucket theorems are about the model with the two repaired expressions (cap before the conversion; floor = min(0.5, configured rate));
+what ties that model to the source is the theorem that the methods *as translated from the source* compute it (`Proofs/RateProg.lean`) -
+not a comparison of source text. The constants and the bucket-table shapes are the regenerated ones. -/
+def Facts.modelled (F : Facts) : Facts :=
+  { F with penaltyCap := "capBeforeConversion", rateFloor := "minOfConstantAndIdeal" }
+
 structure TB where
   tokens : Rat
   cap : Rat
